@@ -123,3 +123,9 @@ func sortedCopy(xs []string) []string {
 	sort.Strings(ys)
 	return ys
 }
+
+func loadBytes(b []byte) (*openapi3.T, error) {
+	l := openapi3.NewLoader()
+	l.IsExternalRefsAllowed = false
+	return l.LoadFromData(b)
+}
